@@ -4,6 +4,7 @@ CONSTANTS
   MaxGen = 3
   Protos = {"chainsync", "txsubmission"}
   Times = {"free", "early", "mid", "late"}
+  FreeAll = TRUE
   Designs = {"repaired"}
   Emit = FALSE
 SPECIFICATION Spec
